@@ -1,7 +1,7 @@
 import FmtModel.Py.ReParse
 import FmtModel.Py.Cmp
 import FmtModel.Py.Num
-import FmtModel.Generated.Tables
+import FmtModel.Generated.Ver
 /-
   FmtModel.Ver — model of fmtutil/__version.py: BaseVersion, VersionSemver, VersionPackage.
   Each definition mirrors the function named in its doc comment.  Regex texts, slot tuples,
